@@ -201,6 +201,9 @@ def real_ray_smoke(rep):
     recorded as skipped, never as a violation or a crash"""
     import random
     from ..common import seed
+    if os.environ.get("VERIF_SKIP_REAL_RAY"):
+        rep.part("real_ray_smoke", skipped="VERIF_SKIP_REAL_RAY is set")
+        return
     try:
         import ray
         ray.init(num_cpus=4, include_dashboard=False, logging_level="ERROR")
